@@ -139,6 +139,12 @@ def scenario(draw, tier="quick"):
         first_place = min(e_["at"] for s_ in strategies for e_ in s_["script"]) if any(s_["script"] for s_ in strategies) else 1
         pos = draw(st.integers(min(len(steps), first_place + 1), len(steps)))
         steps.insert(pos, {"dt": 1000, "k": "remove", "r": draw(st.sampled_from([1, 2])), "af": draw(st.sampled_from([2.5, 10, 40]))})
+        # (the withdrawal is a new market version: when it falls into a suspension, orders with LAPSE persistence lapse
+        #  there by rule - the resting orders of this variant keep PERSIST so that the queue clause stays the subject)
+        for s_ in strategies:
+            for e_ in s_["script"]:
+                for op_ in e_["ops"]:
+                    op_["pers"] = "PERSIST"
     return {"markets": [spec], "strategies": strategies, "clients": [{"min_bet_validation": False}], "_ri": ri, "_removal": removal,
             "subclassed_sim_middleware": draw(st.integers(0, 4)) == 0,
             "listener_kwargs": {"inplay": True} if inplay_only else {},
